@@ -16,6 +16,21 @@ from common import *
 
 def evaluate(fam, cases, payload_extra=None):
     """Runs both sides on `cases` (list).  Returns list of dicts with impl/model/spec/hyp/verdict."""
+    subs = getattr(fam, 'subfamilies', None)
+    if subs:
+        # a family made of several model families (own Coq header, own implementation driver): cases carry the tag of theirs
+        groups = {}
+        for idx, c in enumerate(cases):
+            groups.setdefault(c.get('sub'), []).append(idx)
+        out, merr, ierr = [None] * len(cases), [], []
+        for tag, idxs in groups.items():
+            res, me, ie = evaluate(subs[tag] if tag else fam.main, [cases[i] for i in idxs], payload_extra)
+            for i, r in zip(idxs, res):
+                r['n'] = i
+                out[i] = r
+            merr += list(me or [])
+            ierr += list(ie or [])
+        return out, merr, ierr
     cmds = [(n, fam.to_coq(n, c)) for n, c in enumerate(cases)]
     payload = {'cases': [dict(n=n, case=c) for n, c in enumerate(cases)]}
     payload.update(payload_extra or {})
